@@ -115,10 +115,21 @@ def install(ex):
     def _memcmp(ex, st, args, ins, name):
         n = _len(ex, st, args[2])
         for i in range(n):
-            a = ex.load(st, args[0] + i, L.I8)
-            b = ex.load(st, args[1] + i, L.I8)
-            if isinstance(a, Term) or isinstance(b, Term):
-                raise X.ExecError('memcmp on symbolic bytes')
+            try:
+                a = ex.load(st, args[0] + i, L.I8)
+                b = ex.load(st, args[1] + i, L.I8)
+            except X.ExecError:
+                a = b = None
+            if a is None or isinstance(a, (Term, X.Bits)) or isinstance(b, (Term, X.Bits)):
+                # symbolic doubles: compare the remaining region cell by cell (8-byte aligned doubles), result 0 iff all are bit-identical
+                if i != 0 or n % 8 != 0:
+                    raise X.ExecError('memcmp on symbolic bytes (not a whole array of doubles)')
+                c = True
+                for k in range(0, n, 8):
+                    c = T.band(c, T.biteq(ex.load(st, args[0] + k, L.DOUBLE), ex.load(st, args[1] + k, L.DOUBLE)))
+                if not isinstance(c, Term):
+                    return 0 if c else 1
+                return T.ite(c, 0, 1, ('bv', 32))
             if a != b:
                 return T.mask(-1 if a < b else 1, 32)
         return 0
